@@ -33,14 +33,19 @@ class LiteSessionStore(SessionStore):
 
     def storeSession(self, recipientId, deviceId, sessionRecord):
         # delete and insert in one transaction, so that a crash in between cannot lose the session
-        q = "DELETE FROM sessions WHERE recipient_id = ? AND device_id = ?"
-        c = self.dbConn.cursor()
-        c.execute(q, (recipientId, deviceId))
-
-        q = "INSERT INTO sessions(recipient_id, device_id, record) VALUES(?,?,?)"
         serialized = sessionRecord.serialize()
-        c.execute(q, (recipientId, deviceId, buffer(serialized) if sys.version_info < (2,7) else serialized))
-        self.dbConn.commit()
+        try:
+            q = "DELETE FROM sessions WHERE recipient_id = ? AND device_id = ?"
+            c = self.dbConn.cursor()
+            c.execute(q, (recipientId, deviceId))
+
+            q = "INSERT INTO sessions(recipient_id, device_id, record) VALUES(?,?,?)"
+            c.execute(q, (recipientId, deviceId, buffer(serialized) if sys.version_info < (2,7) else serialized))
+            self.dbConn.commit()
+        except Exception:
+            # a replacement that failed half-way is withdrawn; left pending, its delete would be committed by the next operation
+            self.dbConn.rollback()
+            raise
 
     def containsSession(self, recipientId, deviceId):
         q = "SELECT record FROM sessions WHERE recipient_id = ? AND device_id = ?"
